@@ -127,11 +127,15 @@ func nestedNodeArchetype() distsys.MPCalArchetype {
 	loc := func(iface distsys.ArchetypeInterface, n string) distsys.ArchetypeResourceHandle {
 		return iface.RequireArchetypeResource(A + "." + n)
 	}
-	rd := func(iface distsys.ArchetypeInterface, n string) (tla.Value, error) { return iface.Read(loc(iface, n), nil) }
+	rd := func(iface distsys.ArchetypeInterface, n string) (tla.Value, error) {
+		return iface.Read(loc(iface, n), nil)
+	}
 	wr := func(iface distsys.ArchetypeInterface, n string, v tla.Value) error {
 		return iface.Write(loc(iface, n), nil, v)
 	}
-	resOf := func(iface distsys.ArchetypeInterface) tla.Value { return nestedcrdtimpl.RESOURCE_OF(iface, iface.Self()) }
+	resOf := func(iface distsys.ArchetypeInterface) tla.Value {
+		return nestedcrdtimpl.RESOURCE_OF(iface, iface.Self())
+	}
 	// <lbl>Req: in[RESOURCE_OF(self)] := [tpe |-> T (, value |-> 1)]; goto <lbl>Ack
 	sendReq := func(label, tpeConst, next string, pre func(iface distsys.ArchetypeInterface) error, withValue bool) distsys.MPCalCriticalSection {
 		return distsys.MPCalCriticalSection{Name: A + "." + label, Body: func(iface distsys.ArchetypeInterface) error {
